@@ -2,6 +2,7 @@
      (call MSIZE SMSIZE Method (arg…) SCRIPT)  ->  (RECV GOT)
      (reply Method (arg…) (msg TYPE wireval…)) ->  GOT
      (flow NCALLERS complete|stuck)            ->  ok | (reject why)
+     (barrier NCALLERS complete|stuck)         ->  ok | (reject why)
    Values:  integers bare; (s #hex) string; (b #hex…) []byte (atoms concatenated); (buf n) out-buffer of length n;
             (ss #hex…) []string; (q t v p) Qid; (qs (q…)…) []Qid;
             (dir type dev (q…) mode (t sec nsec) (t sec nsec) length #name #uid #gid #muid)
@@ -156,6 +157,15 @@ Definition run_case (c : sexp) : sexp :=
     else if is_sym (arg c 1) (str "stuck") then
       (if greedy_stuck v 0 n then ssym "ok" else SList [ssym "reject"; ssym "no-stuck-state-reachable"])
     else SList [ssym "reject"; ssym "unknown-observation"]
+  else if head_is c "barrier" then
+    (* (barrier NCALLERS OBSERVED): NCALLERS concurrent calls against a session that releases them only
+       when all have arrived.  For the structure read off the source (every request gets its handler
+       goroutine at once, see gen_flow_facts and FlowProofs.fixed_all_arrive) all of them arrive and
+       complete; "stuck" is not a run of the model. *)
+    if is_sym (arg c 1) (str "complete") then ssym "ok"
+    else if forallb (fun f => snd f) gen_flow_facts && negb gen_owner_loop_writes
+         then SList [ssym "reject"; ssym "all-calls-reach-the-session-and-complete"]
+         else ssym "ok"
   else SList [ssym "unknown-case"].
 
 Definition run_line (line : list N) : list N := print_sexp (run_case (parse_sexp line)).
